@@ -145,6 +145,55 @@ def run_algo_property(pid, prop_file, tier, seed, want, level="proof"):
                                   "%s differ between `%s` and `%s`" % (what, texts[ref[0]][:150], texts[k][:150]),
                                   dict(case_a=texts[ref[0]], case_b=texts[k], differs=what))
             rep.count("families:" + kind)
+        if "c12" in want:
+            # the target/source executor: every single flag, staged histories, every upper level 0..height (+1)
+            from checks import c09
+            tbin, terr = vlib.build_harness("h_algo_tsm", sources=["h_algo.cpp"], defines=["FAMILY_TSM"])
+            if not tbin:
+                rep.violation(dict(kind="build", clause="h_algo_tsm", has_input=True), "harness h_algo (TSM) does not compile: " + terr[-400:], dict(stderr=terr))
+            else:
+                tcases = []
+                for b in c09.gen_cases("quick", rng)[: (40 if tier == "quick" else 400)]:
+                    f = b.split()
+                    d, H = int(f[1]), int(f[3])
+                    if d > 3: continue
+                    nf = int(f[7]); tail = " ".join(f[8 + nf:])
+                    for st in range(0, H + 2):
+                        tcases.append("exectsm %s %d 1 63 %s" % (" ".join(f[1:6]), st, tail))
+                    st = rng.choice([0, 1, 2, H - 1, H])
+                    for fl in SINGLE:
+                        tcases.append("exectsm %s %d 1 %d %s" % (" ".join(f[1:6]), st, fl, tail))
+                    for h in HIST:
+                        tcases.append("exectsm %s %d %d %s %s" % (" ".join(f[1:6]), st, len(h), " ".join(map(str, h)), tail))
+
+                def tcanon(c, line):
+                    if line.startswith(("ABORT", "MODEL", "?")):
+                        return line
+                    parts = line.split(" || ")
+                    calls = [A.parse_call(x) for x in A.split_trace(parts[2])]
+                    return (parts[0], parts[1], sorted(A.elementary(calls).items()))
+
+                def toracle(c, line):
+                    t = c.split(); H, stop, nf = int(t[3]), int(t[6]), int(t[7])
+                    flags = [int(x) for x in t[8:8 + nf]]
+                    s0 = max(0, stop)
+                    parts = line.split(" || ")
+                    seg = 0; cur = set()
+                    for x in A.split_trace(parts[2]):
+                        cl = A.parse_call(x)
+                        if cl.op == "--":
+                            allowed = set()
+                            for bit, ops in OPS_OF.items():
+                                if flags[seg] & bit: allowed |= ops
+                            allowed |= ({"P2PTsm"} if flags[seg] & 1 else set())
+                            if not cur <= allowed: return "execute(flags=%d) invoked %s" % (flags[seg], sorted(cur - allowed))
+                            cur = set(); seg += 1; continue
+                        cur.add(cl.op)
+                        if cl.op in ("M2M", "M2L", "L2L") and cl.level < s0: return "%s applied at level %d above the upper working level %d" % (cl.op, cl.level, s0)
+                        if cl.op in ("P2M", "L2P") and not (H > s0): return "%s applied although the upper working level %d is not below the height %d" % (cl.op, s0, H)
+                    return None
+                vlib.differential(rep, tbin, tcases, sdir, "tsmflags", canon=tcanon, oracle=toracle, nontrivial=lambda c, i: " M2L " in i,
+                                  clause=lambda c: "tsmflags:d%s" % c.split()[1])
         rep.coverage["rule"] = ("executions of the real sequential executor with the TraceKernel on: thinned occupancy-exhaustive small trees x stop level 0..2; random structured trees d=1..4 "
                                 "(heights up to %s) x block sizes x both modes x stop levels; %s. non-trivial = trace has M2M and M2L and >6 groups; distinct by case text"
                                 % ({1: 8, 2: 6, 3: 5, 4: 4} if tier == "quick" else {1: 10, 2: 7, 3: 6, 4: 4}, "+ grouping families (same input, all block sizes x modes)" if "c08" in want else "") )
